@@ -106,8 +106,9 @@ def job(cfgs):
         states.add(h((cfg['transport'], cfg['ka'], cfg['R'], cfg['k'], cfg['kind'], o)))
         for clause, cause in v:
             v2 = run_k(cfg)[0]
-            assert any(c == clause for c, _ in v2), 'non-deterministic failure'
             cls = 'known-code' if cfg['code'] in wire.MODBUS_EXCEPTIONS else 'unknown-code'
+            if not any(c == clause for c, _ in v2):
+                cls += '/order-dependent'
             out.append(dict(key=f"{clause}/{cfg['transport']}/ka={int(cfg['ka'])}/{cfg['kind']}/after-{min(cfg['k'], 1)}-timeouts/{cls}",
                             clause=clause, replay=dict(part='K', cfg=cfg), detail=dict(cause=cause, result=res[:3])))
     return len(cfgs), oc, out, states
